@@ -1,5 +1,6 @@
 import GoatSpec.Proofs.Walk
 import GoatSpec.Proofs.Legal
+import GoatSpec.Proofs.Header
 /-! # C03 — every changed executable statement is guarded by a tracking point.
 
 Proved here for **line and func granularity**, for the first event of every scope at **scope
@@ -378,6 +379,79 @@ theorem line_guard (f : File) (hwf : wfFile f = true) (hlf : linesInFuncOK f = t
     · exact absurd hlt h1
     · exact h1 l hlb
   exact line_guard_partial f ranges m h lb rb p stmts hd l hw env henv hch hnc hin
+
+/-- **C03, header clause, line granularity, on well-formed files: a changed `if` header guards the
+    branch.** For every abstract file that meets the layout hypothesis, every changed-line set on
+    which the tracker terminates normally, every declared function with a multi-line body and every
+    `if` statement nested ANYWHERE below it (bodies, else branches, clauses, init statements,
+    function literals in any expression position — `subL`): when the `if` line or a line of its
+    init statement or condition is changed, the first boundary (first statement, or closing brace
+    when empty) of a branch block opening on the body's brace line is a tracking position. The
+    same proof applies to for / range / case / comm headers (`frcS`). -/
+theorem if_header_guard (f : File) (hwf : wfFile f = true) (hbf : boundariesInFuncOK f = true)
+    (ranges : List (Nat × Nat)) (m : Marks) (h : marks f .line ranges = .ok m)
+    (lb0 rb0 : Nat) (p : Nat × Nat) (stmts : List Stmt)
+    (hd : Decl.funcDecl (some (lb0, rb0, some p, stmts)) ∈ f.decls)
+    (l e : Nat) (init : List Stmt) (ir cr : ORng) (cond : List Expr) (lb rb : Nat) (body els : List Stmt)
+    (ht : Stmt.ifS l e init ir cr cond lb rb body els ∈ subL stmts)
+    (env : Env) (henv : mkEnv f .line ranges = .ok env)
+    (hch : (env.changed.getD l false || rngChanged (fun l => env.changed.getD l false) ir
+            || rngChanged (fun l => env.changed.getD l false) cr) = true) :
+    ∃ b ∈ fileBlks f, b.lo = lb ∧ b.header ≠ [] ∧ b.firstBoundary ∈ m.multi := by
+  obtain ⟨hcm, hfs⟩ := mkEnv_file f .line ranges env henv
+  simp only [wfFile, Bool.and_eq_true, List.all_eq_true] at hwf
+  obtain ⟨⟨hshape, hblks⟩, _⟩ := hwf
+  -- the force event of the header is an event of the file
+  have hf0 : Ev.force (lb + 1) ∈ ctlS (fun l => env.changed.getD l false) (.ifS l e init ir cr cond lb rb body els) := by
+    rw [ctlS_if]
+    simp only [hch, if_true]
+    exact List.mem_append_left _ (List.mem_append_left _ (List.mem_append_left _ (List.mem_append_left _ (List.mem_cons_self ..))))
+  have hf1 : Ev.force (lb + 1) ∈ declEvents (fun l => env.changed.getD l false) (.funcDecl (some (lb0, rb0, some p, stmts))) := by
+    simp only [declEvents]
+    exact List.mem_append_right _ (ctl_subL _ stmts _ ht _ hf0)
+  have hev : Ev.force (lb + 1) ∈ fileEvents (fun l => env.changed.getD l false) f :=
+    List.mem_flatMap.mpr ⟨_, hd, hf1⟩
+  -- … and names a branch block of the file
+  obtain ⟨b, hb, hlb, hh⟩ := decl_force _ _ (hshape _ hd) (lb + 1) hf1
+  have hbf' : b ∈ fileBlks f := List.mem_flatMap.mpr ⟨_, hd, hb⟩
+  have hbok := hblks b hbf'
+  have hlt : b.lo < b.hi := by
+    have := hbok.2
+    simp only [forcedOK, Bool.or_eq_true, List.isEmpty_iff, decide_eq_true_eq] at this
+    rcases this with h1 | h1
+    · exact absurd h1 hh
+    · exact h1
+  have hlo : b.lo = lb := by omega
+  obtain ⟨f1, f2, f3, _⟩ := firstBoundary_facts f b hbok.1 hlt
+  have hsz := blk_hi_le f b hbok.1 hlt
+  have hfbc : env.isComment b.firstBoundary = .ok false := by
+    have := isComment_of_codes env f hcm b.firstBoundary (by omega) (by omega)
+    rwa [f3] at this
+  have hcsz : env.comments.size = f.lineCodes.size + 1 := by rw [hcm]; simp [commentArray]; omega
+  obtain ⟨r, hr⟩ := skipComments_exists env (b.firstBoundary - (b.lo + 1)) (b.lo + 1) (env.comments.size + 1)
+    (by omega) (by have : b.lo + 1 + (b.firstBoundary - (b.lo + 1)) = b.firstBoundary := by omega
+                   rw [this]; exact hfbc)
+  have hreq := force_target_eq env f hcm b hbok.1 hlt _ r hr
+  subst hreq
+  have hin : searchScopes env.funcs b.firstBoundary ≠ 0 := by
+    simp only [boundariesInFuncOK, hfs, List.all_eq_true, Bool.or_eq_true, Bool.not_eq_true', decide_eq_false_iff_not,
+      List.isEmpty_iff, bne_iff_ne, ne_eq] at hbf
+    rcases hbf b hbf' with (h1 | h1) | h1
+    · exact absurd hlt h1
+    · exact absurd h1 hh
+    · exact h1
+  refine ⟨b, hbf', hlo, hh, ?_⟩
+  unfold marks at h
+  rw [henv] at h
+  simp only at h
+  split at h
+  · cases h
+  · next st hst =>
+    cases h
+    rw [mem_sortNat]
+    have hg : env.gran = .line := mkEnv_gran f .line ranges env henv
+    rw [hlb] at hev
+    exact events_marked_line env hg _ {} st (Inv.init env) hst (b.lo + 1) b.firstBoundary (Or.inr hev) hr hin
 
 /-- **C03, func granularity (partial: statements in the positions the walk enters).**
     For every abstract file and changed-line set on which the tracker terminates normally: a
